@@ -245,7 +245,7 @@ func checkC08(e *RunEnv) *CheckResult {
 					steps = append(steps, Rmdir("d"))
 				}
 				if _, ok := a.W["u"]; !ok {
-					steps = append(steps, Write("u", "untracked\n"))
+					steps = append(steps, Write("u", "untracked\n"), Write("a.tmp", "a never-tracked file next to a\n"))
 				}
 				// a staged change: the staging area differs from every commit
 				steps = append(steps, Run("add", "a"))
